@@ -1,5 +1,6 @@
 import Driver.C14Mon
 import OidcModel.Generated.RequestObject
+import OidcModel.Generated.AssertionEndpoints
 open Kv Drv
 
 namespace Drv.C14
@@ -20,7 +21,79 @@ def modelLine (l : Line) (now : Int) : String × Bool :=
         (c.iss == str l "o.iss" && c.sub == str l "o.sub" && c.aud == list l "o.aud" && c.exp == int l "o.exp" && c.iat == int l "o.iat")))
     | .error e => (showR (.error e : Go.R Unit), str l "obs" == "err" && (!e.startsWith "Err" || str l "o.err" == e))
 
+/-! ### endpoint lines: the regenerated consumers of assertions (`GenC14`), with the verifier built for the issuer the request
+    is addressed to -/
+
+def epProvider (l : Line) : AsrtProvider :=
+  let registry := Drv.C02.parseRegistry l
+  let clients : List OPClient := (List.range (nat l "cl.n")).map fun i =>
+    let id := str l s!"cl.{i}.id"
+    { id := id, auth := str l s!"cl.{i}.auth", keys := (registry.filter (·.1 == id)).map (·.2) }
+  let refused := list l "scope.forbidden"
+  { storage := { base := { clients := clients }, scopePolicy := fun _ s => .ok (s.filter fun x => !refused.contains x) },
+    pkjwtSupported := bool l "cfg.pkjwt", tokenOf := fun _ => parseToken l }
+
+/-- what the endpoint does with the request: `.ok (identity, scopes)` = honoured -/
+def epModel (l : Line) (now : Int) : Go.R (String × List String) :=
+  let p := epProvider l
+  let iss := str l "req.iss"
+  let legacy := str l "router" == "legacy"
+  let ep := str l "ep"
+  let owner := str l "g.owner"
+  let owned (id : String) : Go.R (String × List String) := if owner == "" || owner == id then .ok (id, []) else .error "ErrInvalidGrant"
+  -- private_key_jwt at the token endpoint (and, on the legacy server, wherever a client is verified): AuthorizePrivateJWTKey
+  let viaPrivateKey : Go.R (String × List String) :=
+    if !p.pkjwtSupported then .error "ErrInvalidClient" else
+    match GenC14.AuthorizePrivateJWTKey now iss (parseToken l) p with
+    | .error e => .error e
+    | .ok c => owned c.id
+  -- the request as ClientIDFromRequest / ParseTokenRevocationRequest read it: only the assertion, typed jwt-bearer
+  let req : AsrtHttpReq := { Form := { ClientAssertion := "assertion", ClientAssertionType := Const.ClientAssertionTypeJWTAssertion } }
+  -- introspection, device authorization and the device grant of the Provider router: ClientIDFromRequest (assertion, then the registered method)
+  let viaClientID : Go.R (String × List String) :=
+    match GenC14.ClientIDFromRequest now iss req p with
+    | .error e => .error e
+    | .ok (id, _) => owned id
+  match ep with
+  | "bearer" =>
+    if legacy then
+      match GenC14.LegacyJWTProfile now iss { provider := p } { Data := { Assertion := "assertion", Scope := list l "scope.req" } } with
+      | .error e => .error e
+      | .ok resp => .ok (resp.subject, resp.scopes)
+    else
+      match GenC14.JWTProfile now iss (.ok { Assertion := "assertion", Scope := list l "scope.req" }) p with
+      | .requestError e => .error e
+      | .json resp => .ok (resp.subject, resp.scopes)
+  | "code" | "refresh" | "exchange" => viaPrivateKey
+  | "introspect" =>
+    if legacy then
+      match GenC14.LegacyAuthenticateResourceClient now iss { provider := p } { ClientAssertion := "assertion" } with
+      | .error e => .error e
+      | .ok id => .ok (id, [])
+    else viaClientID
+  | "device" | "devauth" => if legacy then viaPrivateKey else viaClientID
+  | "revoke" =>
+    if legacy then viaPrivateKey
+    else
+      match GenC14.ParseTokenRevocationRequest now iss req p with
+      | .error e => .error e
+      | .ok (_, _, id) => .ok (id, [])
+  | _ => .error "bad-ep"
+
+def epLine (l : Line) (now : Int) : String × Bool :=
+  match epModel l now with
+  | .ok (id, scopes) =>
+    ("ok", str l "obs" == "ok" && (!has l "o.id" || str l "o.id" == id) && (str l "ep" != "bearer" || list l "o.scope" == scopes))
+  | .error _ => ("err", str l "obs" == "err")
+
+def stepEndpoint (l : Line) : String :=
+  let (m0, a0) := epLine l (int l "now0")
+  let (m1, _) := epLine l (int l "now1")
+  let stable := m0 == m1
+  s!"case={str l "case"} class={lineClass l} model={if stable then m0 else "unstable"} observed={obsString l} monitor={showMon (monitorLine l)} agree={if !stable || a0 then 1 else 0}"
+
 def step (l : Line) : String :=
+  if str l "kind" == "endpoint" then stepEndpoint l else
   let (m0, a0) := modelLine l (int l "now0")
   let (m1, _) := modelLine l (int l "now1")
   let stable := m0 == m1
